@@ -18,7 +18,7 @@ PROPS = {
     "C02": {"lean": "ICG.Props.C02", "streams": [("corr_bounds", "C02")], "rule": _BOUNDS_RULE, "quick_s": 60, "thorough_s": 600},
     "C03": {"lean": "ICG.Props.C03", "streams": [("corr_bounds", "C03"), ("corr_hist", "C03")], "rule": _BOUNDS_RULE, "quick_s": 60, "thorough_s": 600},
     "C04": {"lean": "ICG.Props.C04", "streams": [("corr_bounds", "C04")], "rule": _BOUNDS_RULE, "quick_s": 90, "thorough_s": 900},
-    "C07": {"lean": "ICG.Props.C07", "streams": [("corr_bounds", "C07")], "rule": _BOUNDS_RULE, "quick_s": 60, "thorough_s": 600},
+    "C07": {"lean": ["ICG.Props.C07", "ICG.Props.C07Gaps"], "streams": [("corr_bounds", "C07"), ("corr_shapley", "C07")], "rule": _BOUNDS_RULE, "quick_s": 60, "thorough_s": 600},
     "C08": {"lean": "ICG.Props.C08", "streams": [("corr_bounds", "C08"), ("corr_hist", "C08")], "rule": _BOUNDS_RULE, "quick_s": 60, "thorough_s": 600},
     "C17": {"lean": "ICG.Props.C17", "streams": [("corr_table", "C17")],
             "rule": ("random histories of 40 public value operations (set / unset / reveal / un-reveal / bulk set / bulk reset / bulk and scalar bound "
@@ -67,4 +67,26 @@ PROPS = {
             "trusted": ["the recording layer (_RecRaw under the interpreter's own BufferedWriter/TextIOWrapper); strace agreement is checked in the thorough tier"],
             "theorems_relying": "ICG.C20.atomicB_atomic / atomic (observed list accepted by atomicB => old-or-new at every k); ICG.C20.truncate_not_atomic (present code)",
             "quick_s": 60, "thorough_s": 600},
+    "C11": {"lean": "ICG.Props.C11", "streams": [("corr_search", "C11")], "quick_s": 60, "thorough_s": 600,
+            "rule": ("cases = (n ∈ {3,4}, hidden game from the closure int/dyadic games or the repo generators noisy_factory/graph/xos, start ⊇ minimal plus 0..2 extra coalitions, k, "
+                     "one of five (computer, gap function) pairs — three computers, all four gap functions); scratch game poisoned with stale values and bounds; processes {1,2,3,5,16} "
+                     "quick, 1..16 thorough; meta-game at n=3 (all) and n=4 (sampled); best-states on a replayable generator; observed pool chunking against the model; "
+                     "non-trivial = asymmetric game and ≥ 3 distinct gaps; distinct by (game, start, k, computer, gap)"),
+            "assumptions": ["bound computer and gap function are opaque parameters of the theorems and of the stream (expected gap = real gap function on a fresh real game with exactly that knowledge)",
+                            "selections on float near-ties are not compared with the model (counted as skipped:float-near-tie); the oracle still runs"],
+            "trusted": ["CPython multiprocessing.Pool chunking / pickling semantics as modelled in DESIGN 3.6 (observed against the model on every run)"]},
+    "C12": {"lean": "ICG.Props.C12", "streams": [("corr_search", "C12")], "quick_s": 60, "thorough_s": 600,
+            "rule": ("real evaluate() with greedy / largest / random on a real ModelInstance using seed-respecting generators, plus harness DrawGen environments (shared or private, fresh or "
+                     "pre-used); repetitions {1,2,5,8}, processes {1,2,3,5} (thorough: repetitions {1,2,3,5,8,13,24}, processes 1..16); trajectory oracle replays every repetition's "
+                     "recorded actions on a fresh env over the hidden game captured by after_reset; non-trivial = ≥ 2 repetitions, ≥ 2 steps, ≥ 2 distinct recorded gaps"),
+            "assumptions": ["Pool / pickling semantics are modelled (DESIGN 3.6), not verified: 'proof over the stated process model'"],
+            "trusted": ["CPython multiprocessing.Pool; numpy Generator.spawn independence"]},
+    "C14": {"lean": "ICG.Props.C14", "streams": [("corr_regret", "C14")], "quick_s": 60, "thorough_s": 600,
+            "rule": ("case = (n, limit, plus, history of regret_min_iteration calls); n=3 limits 1..8 ×3 histories, n=4 limits {1,2,5,9,10,12} (thorough: all 1..12, n=5 limits 1..3) × plain/plus; "
+                     "terminal losses non-negative multiples of 1/8 or sparse 0/1; used_actions = all coalition sets of size min(limit,m), shuffled, sometimes partial / with dropped singletons; "
+                     "exact comparison of structure and error kinds, float32 numbers vs exact Rat with tolerance 1e-5·max(1,‖·‖∞) and a float-tie guard; save/load through /tmp; non-trivial = "
+                     "constructed, ≥2 iterations, some node non-uniform and some node with revealed coalitions on the uniform fallback; distinct by (n, limit, plus, history)"),
+            "assumptions": ["float32 rounding is outside the theorems", "np.save / np.load / json trusted",
+                            "whole-tree induction over the two passes of one iteration is _partial (node step, base case, frame, plus-clipping, save/load are proved)"],
+            "trusted": ["table length and stored limit are read off the real object and fed to the model (Policy.explicit)"]},
 }
